@@ -344,8 +344,10 @@ class World:
                 elif isinstance(val, dict):
                     setattr(obj, name, {k: v for k, v in sorted(val.items()) if v != 0})
         blob = pickle.dumps(mem, protocol=5)
+        # the counters themselves are not part of the key (their deltas are checked on every transition), but whether any
+        # counted access / any hit has happened yet is: code may (wrongly) branch on "never accessed"
         return digest((blob, tuple(sorted((a, v) for a, v in self.flat.items() if v)),
-                       self.ref.key() if self.ref_valid else None))
+                       self.ref.key() if self.ref_valid else None, self.ref.accesses > 0, self.ref.hits > 0))
 
 
 def _dropzero(c):
